@@ -430,8 +430,22 @@ def rule_bp(repo: Repo, rep: Report) -> int:
             for s, (tname, acc) in zip(body, want):
                 if tname == "messages" and isinstance(s.value, ast.Call) and attr_chain(s.value.func) == "self.marginalize" and len(s.value.args) == 2 and not any(isinstance(x, ast.Name) and x.id == "received_block" for x in ast.walk(s.value.args[1])) and any(isinstance(x, ast.Name) and x.id in ("messages", "vc", "cv") for x in ast.walk(s.value.args[1])):
                     rep.violation("BP-UPDATE", db, s, "the marginal is formed from a running estimate instead of the channel input: the channel LLR is counted again in every iteration", node=s)
-                elif s.targets[0].id != tname:
+                elif s.targets[0].id != tname and s.targets[0].id in ("vc", "cv", "messages"):
                     rep.violation("BP-UPDATE", db, s, f"schedule step assigns `{s.targets[0].id}` where `{tname}` is expected: the order vc -> cv -> marginalise is broken", node=s)
+                elif s.targets[0].id != tname:
+                    # other names for the three quantities: the step is judged by the method it calls and by where its arguments come from
+                    callee = attr_chain(s.value.func) if isinstance(s.value, ast.Call) else None
+                    want_callee = {"vc": "self.compute_vc", "cv": "self.compute_cv", "messages": "self.marginalize"}[tname]
+                    prev_targets = [b_.targets[0].id for b_ in body]
+                    k_ = body.index(s)
+                    feeds = {x.id for x in ast.walk(s.value) if isinstance(x, ast.Name)}
+                    need = {0: {prev_targets[1]}, 1: {prev_targets[0]}, 2: {prev_targets[1]}}[k_]
+                    if callee == want_callee and need <= feeds:
+                        rep.ok("BP-UPDATE", db, s, f"schedule: {tname} (under the name `{s.targets[0].id}`) computed by {want_callee[5:]} from the previous step's output", node=s)
+                    elif callee is not None and callee != want_callee and callee in ("self.compute_vc", "self.compute_cv", "self.marginalize"):
+                        rep.violation("BP-UPDATE", db, s, f"schedule step {k_ + 1} calls `{callee[5:]}` where `{want_callee[5:]}` is expected: the order vc -> cv -> marginalise is broken", node=s)
+                    else:
+                        rep.undecided("BP-UPDATE", db, s, f"schedule step {k_ + 1} not recognised", node=s)
                 else:
                     form(rep, "BP-UPDATE", db, s.value, acc, f"schedule: {tname}", "the marginal must combine the messages with the CHANNEL input, and each step must consume the previous step's output")
             n += 3
@@ -517,6 +531,9 @@ def rule_collect(rep: Report, fi: FuncInfo, loopvar: str, iter_attr: str, acc: s
     top = [s for s in loop.body if isinstance(s, ast.Expr) and match(s.value, f"{acc}.append({item})") is not None]
     if len(apps) == 1 and len(top) == 1:
         rep.ok("GROUP-ORDER", fi, f"{acc}.append({item}) once per group, unconditionally", "one result per group in group order", node=top[0])
+    elif len(apps) == 0 and not any(isinstance(x, ast.Name) and x.id == acc for x in ast.walk(fi.node)):
+        # the accumulator goes by another name: a spelling, not a missing contribution
+        rep.undecided("GROUP-ORDER", fi, f"per-group results collected in `{acc}`", f"no variable `{acc}` in this function (code shape not recognised)", node=loop)
     elif len(apps) != 1:
         rep.violation("GROUP-ORDER", fi, f"{len(apps)} append site(s) to `{acc}` in the group loop", "each group must contribute exactly one block of messages, in group order", node=loop)
     else:
